@@ -276,6 +276,8 @@ func (e *Engine) tryRecv(st *State, ch ChanV, elem types.Type) (Value, bool, boo
 	if e.timerReady(o) {
 		w := e.wobj(st, ch.Obj)
 		w.Aux["timer"] = e.i64(w.Aux["timer"].(*smt.Term).Val - 1)
+		st.TimerFired++
+		e.curTimerFires = st.TimerFired
 		return e.freshNow(st), true, true
 	}
 	if len(o.Buf) > 0 {
